@@ -264,7 +264,7 @@ int disasm_powerpc(
           snprintf(instruction, length, "%s v%d, %d", instr, rd, vsimm);
           break;
         case OP_VD_VB:
-          snprintf(instruction, length, "%s v%d, v%d", instr, rd, ra);
+          snprintf(instruction, length, "%s v%d, v%d", instr, rd, rb);
           break;
         case OP_VD_VA_VB_SH:
           vc = (opcode >> 6) & 0xf;
